@@ -16,6 +16,9 @@ pub(crate) struct Html5Serializer<'a, N: Normalizer> {
     html5_elements: &'a Html5Elements,
     cdata_section_names: &'a [NameId],
     fullname_serializer: FullnameSerializer<'a>,
+    // elements without declarations of their own for which a default
+    // namespace was added: their entry has to be popped again
+    added_default: Vec<Node>,
     normalizer: N,
 }
 
@@ -64,6 +67,7 @@ impl<'a, N: Normalizer> Html5Serializer<'a, N> {
             html5_elements,
             cdata_section_names,
             fullname_serializer,
+            added_default: Vec::new(),
             normalizer,
         }
     }
@@ -139,8 +143,16 @@ impl<'a, N: Normalizer> Html5Serializer<'a, N> {
                     .must_be_serialized_unprefixed(namespace_id)
                     && !self.fullname_serializer.has_empty_prefix(namespace_id)
                 {
-                    // add the empty prefix for the namespace
-                    self.fullname_serializer.add_empty_prefix(namespace_id);
+                    // add the empty prefix for the namespace; an element without
+                    // declarations has no entry of its own on the stack: give it
+                    // one, so that the binding ends with the element
+                    if self.xot.has_namespace_declarations(node) {
+                        self.fullname_serializer.add_empty_prefix(namespace_id);
+                    } else {
+                        self.fullname_serializer
+                            .push(vec![(self.xot.empty_prefix(), namespace_id)]);
+                        self.added_default.push(node);
+                    }
                     // we also need to serialize the additional xmlns
                     let local_name = self.xot.local_name_str(element.name_id);
                     let namespace_uri = self.xot.namespace_str(namespace_id);
@@ -182,8 +194,12 @@ impl<'a, N: Normalizer> Html5Serializer<'a, N> {
                         ),
                     }
                 };
+                let added_default = self.added_default.last() == Some(&node);
+                if added_default {
+                    self.added_default.pop();
+                }
                 self.fullname_serializer
-                    .pop(self.xot.has_namespace_declarations(node));
+                    .pop(added_default || self.xot.has_namespace_declarations(node));
                 r
             }
             Prefix(prefix_id, namespace_id) => {
